@@ -462,11 +462,12 @@ def write_evidence(pid, tier, seed, audit, cov, wall, violations, assumptions, e
 TRUSTED_BASE = [
     "Coq 8.16.1 kernel (coqc, full .vo build, vm_compute in Examples; no native_compute)",
     "axioms: none expected (Print Assumptions under every property theorem must say 'Closed under the global context')",
-    "extraction: ExtrOcamlBasic only (Extract Inductive for bool, option, unit, prod, list, sumbool); no Extract Constant; N/positive/nat stay Coq datatypes; OCaml 4.13.1 ocamlfind ocamlopt",
+    "extraction: ExtrOcamlBasic only (Extract Inductive for bool, option, unit, prod, list, sumbool); no Extract Constant; N/positive/nat stay Coq datatypes; OCaml 4.13.1 ocamlfind ocamlopt; a sample of every run is cross-checked by vm_compute inside Coq",
     "correspondence check: Rust harness enr_impl (Spy/Toy key wrappers), OCaml driver model_run, Python generators/diff (differential testing: agreement on the inputs run, not for all inputs)",
     "modelled by hand, tied only by the correspondence check: alloy-rlp codecs, BTreeMap as sorted association list, bytes buffers as lists, base64 URL_SAFE_NO_PAD, hex, serde_json string quoting, zeroize, Hash as a function of (seq, node id, signature)",
     "crypto cores are universally quantified in the theorems (ECDSA equation, ed25519 verification and key validity, SEC1 point decoding); at run time they are answered by k256 / libsecp256k1 / ed25519-dalek called directly, never through enr",
-    "keccak256 is concrete in Gallina, validated by vectors and by the correspondence check",
+    "keccak256 is concrete in Gallina, validated by standard vectors evaluated by the kernel and by the correspondence check",
+    "read from the source text and recorded, deciding nothing: constants of /repo/src vs Consts.v, public functions vs the harness (source_surface), statement order of the update bodies vs Stmt.v (statement_skeleton, C06)",
     "not covered: unforgeability / collision resistance, memory safety of dependencies, timing, allocation failure",
 ]
 
